@@ -314,7 +314,7 @@ class MTVRPEnv(RL4COEnvBase):
             td["time_windows"][..., 0] < td["time_windows"][..., 1]
         ), "there are unfeasible time windows"
         assert torch.all(
-            td["time_windows"][..., :, 0] + d_j0 + td["service_time"]
+            td["time_windows"][..., :, 0] + d_j0 / td["speed"] + td["service_time"]
             <= td["time_windows"][..., 0, 1, None]
         ), "vehicle cannot perform service and get back to depot in time."
         # check individual time windows
@@ -339,7 +339,8 @@ class MTVRPEnv(RL4COEnvBase):
             curr_length[next_node == 0] = 0.0  # reset length for depot
 
             curr_time = torch.max(
-                curr_time + dist, gather_by_index(td["time_windows"], next_node)[..., 0]
+                curr_time + dist / td["speed"].squeeze(-1),  # travel time, as in the action mask
+                gather_by_index(td["time_windows"], next_node)[..., 0],
             )
             assert torch.all(
                 curr_time <= gather_by_index(td["time_windows"], next_node)[..., 1]
